@@ -285,6 +285,8 @@ structure UpdCtx (M R : Type) where
   created : Option M
   idCalls : List String
   createdCalls : Nat
+  /-- `createdMeanwhile`: the re-validation read found the item although the first read did not -/
+  createdMeanwhile : Bool := false
 
 /-- The `get` callback of `Collection.Update`. -/
 def updGet (cfg : Cfg M K R) (wr : WriteReq M K) (c : UpdCtx M R) : Except Code (Option M) × UpdCtx M R :=
@@ -294,7 +296,7 @@ def updGet (cfg : Cfg M K R) (wr : WriteReq M K) (c : UpdCtx M R) : Except Code 
     match lookup c.st.items c.id with
     | some it =>
       if wr.expectAbsent then (.error .alreadyExists, c)
-      else (.ok (some it.body), c)
+      else (.ok (some it.body), { c with createdMeanwhile := true })
     | none => (.ok (some cr), c)
   | none =>
     -- handle empty ids, generating them, and invoking callbacks
@@ -337,7 +339,8 @@ def Coll.update (cfg : Cfg M K R) (s : CState M R) (id : String) (msg : M) (wr :
     let (r, c) := getAndUpdate cfg.ops (updGet cfg wr) (changeFn cfg.ops wr u msg) (updSave cfg wr) c0
     match r.err, r.new with
     | none, some new =>
-      let add := r.old.isNone || c.created.isSome
+      -- an item created meanwhile (equal to the provisional message, or the write is aborted) is UPDATED
+      let add := r.old.isNone || (c.created.isSome && !c.createdMeanwhile)
       let (t, st') := updateTimeC cfg wr c.st
       ({ val := some new, err := none,
          events := [{ id := c.id, time := t, kind := if add then .add else .update,
